@@ -182,6 +182,48 @@ def rule_reverse_table(ctx: Ctx) -> None:
                  construct="run_circuit: list not reversed")
 
 
+def rule_pivot_found(ctx: Ctx) -> None:
+    """inverse.pivot-found: the first block of inverse_circuit walks the columns with a running pivot row and brings a generator acting on
+    column j to that row (X, else Y, else Z + Hadamard).  When no generator at or below the pivot row acts on column j none of the
+    branches runs; the block must then deal with the column in some other way before moving on.  Advancing the pivot row regardless leaves
+    a row without an X on the diagonal, and the CNOT / CZ / Hadamard blocks, which all assume one, return a tableau that is not +Z_i."""
+    from .. import flow
+    repo = ctx.repo
+    m = repo.module(STABF)
+    fn = repo.anchor(STABF, "inverse_circuit")
+    ctx.touch(m, fn)
+    loops_ = [l for l in fn.body if isinstance(l, ast.For) and any((call_attr(c) or getattr(c.func, "id", "")) == "pauli_type_finder" for c in calls_in(l))]
+    if len(loops_) != 1:
+        raise AnalysisError("inverse_circuit: the pivot-finding block was not found")
+    lp = loops_[0]
+    finder = next(s_ for s_ in lp.body if isinstance(s_, ast.Assign) and isinstance(s_.value, ast.Call)
+                  and (call_attr(s_.value) or getattr(s_.value.func, "id", "")) == "pauli_type_finder")
+    names = [norm(e) for e in finder.targets[0].elts] if isinstance(finder.targets[0], ast.Tuple) else []
+    chain = next((s_ for s_ in lp.body if isinstance(s_, ast.If) and isinstance(s_.test, ast.Name) and s_.test.id in names), None)
+    if chain is None or len(names) != 3:
+        raise AnalysisError("inverse_circuit: the X / Y / Z case split of the pivot-finding block was not found")
+    # does the chain end in an else that handles "no generator on this column"?
+    cur, covered = chain, set()
+    has_else = False
+    while True:
+        if isinstance(cur.test, ast.Name):
+            covered.add(cur.test.id)
+        if len(cur.orelse) == 1 and isinstance(cur.orelse[0], ast.If):
+            cur = cur.orelse[0]
+            continue
+        has_else = bool(cur.orelse)
+        break
+    adv = [s_ for s_ in lp.body if isinstance(s_, (ast.Assign, ast.AugAssign)) and "pivot[0]" in norm(s_.targets[0] if isinstance(s_, ast.Assign) else s_.target)]
+    if has_else or not adv:
+        ctx.ok("inverse.pivot-found", m, chain, what="a column without a generator at or below the pivot row is handled explicitly")
+    else:
+        ctx.fail("inverse.pivot-found", m, adv[0],
+                 f"inverse_circuit: when no generator at or below the pivot row acts on column j (none of `{'`, `'.join(sorted(covered))}` is non-empty) the "
+                 f"block does nothing and `{short(adv[0])}` still advances: that row never gets an X on the diagonal and the later blocks return a tableau "
+                 f"that is not +Z_i (witness/C11_inverse_circuit_no_pivot_column.py)", func="inverse_circuit",
+                 construct="inverse_circuit: pivot row advances when the column has no pivot")
+
+
 def rule_graph_tableau_whole(ctx: Ctx) -> None:
     """graph.whole: the Clifford tableau of a graph state has qubit i = i-th node of the graph.  get_clifford_tableau_from_graph must build
     it from the stabilizer tableau of the *whole* graph on every path; assembling it from per-component tableaux with a tensor product
@@ -377,6 +419,7 @@ def run(ctx: Ctx) -> None:
     rule_emit_mirror(ctx)
     rule_replay(ctx)
     rule_graph_tableau_whole(ctx)
+    rule_pivot_found(ctx)
     from ..rules import echelon as _echelon
     _echelon.rule_elim_direction(ctx)
     tm = repo.module(TR)
